@@ -1,7 +1,7 @@
 (* C10 — Assigning one element changes that element and nothing else. Statements only. *)
 From Coq Require Import ZArith List Bool Lia.
 Import ListNotations.
-From XO Require Import Slots Strides BufOps Types Format Check LayoutProofs Update UpdateProofs UpdateSize UpdateFrame UpdateAt.
+From XO Require Import Slots Strides BufOps Types Format Check LayoutProofs Update UpdateProofs UpdateSize UpdateFrame UpdateAt PartExtent.
 Open Scope Z_scope.
 
 (* on the value tree: the assigned element becomes the (capacity-preserving) new value, every
@@ -41,6 +41,13 @@ Theorem C10_frame_of_assignment_positioned : forall t v p x v' img,
     enc st old = Some a /\ enc st x' = Some b /\ len a = len b /\ enc t v' = Some img' /\ path_off t v p = Some d /\
     exists pre post, img = pre ++ a ++ post /\ img' = pre ++ b ++ post /\ len pre = d.
 Proof. exact assign_frame_at. Qed.
+(* NOTHING MOVES: after an honoured assignment EVERY part of the object (every path q: inside the assigned
+   element, above it, or anywhere else) lies at the offset it had and its own image has the length it had --
+   the extent a nested struct / array reports never changes; part_extent is meaningful: the part's image sits
+   at that offset of the object's image, inside it *)
+Theorem C10_assignment_moves_no_part : forall t v p x v' img, assign t v p x = Some v' -> enc t v = Some img ->
+  forall q, part_extent t v' q = part_extent t v q.
+Proof. exact assign_moves_no_part. Qed.
 Theorem C10_history_sound : forall steps t v size n, check_updates t v size n steps = None -> conforms t v size steps.
 Proof. exact check_updates_sound. Qed.
 
@@ -62,3 +69,4 @@ Print Assumptions C10_history_sound.
 Print Assumptions C10_extent_kept.
 Print Assumptions C10_frame_of_assignment.
 Print Assumptions C10_frame_of_assignment_positioned.
+Print Assumptions C10_assignment_moves_no_part.
